@@ -16,6 +16,7 @@ package log
 import (
 	"context"
 	"fmt"
+	"reflect"
 	"unsafe"
 
 	"github.com/hprose/hprose-golang/v3/rpc/core"
@@ -42,6 +43,62 @@ func New(f ...func(v ...interface{})) *Log {
 
 func unsafeString(bytes []byte) string {
 	return *(*string)(unsafe.Pointer(&bytes))
+}
+
+// acyclic reports whether v can be handed to a printer that follows pointers without end:
+// arguments and results arrive from the wire, where a list may contain itself
+// (Cs4"echo"a1{r0;}z), and neither jsoniter nor fmt survive that.
+func acyclic(v reflect.Value, path map[uintptr]bool, depth int) bool {
+	if depth > 64 {
+		return false
+	}
+	switch v.Kind() {
+	case reflect.Ptr, reflect.Map, reflect.Slice:
+		if v.IsNil() {
+			return true
+		}
+		p := v.Pointer()
+		if path[p] {
+			return false
+		}
+		path[p] = true
+		defer delete(path, p)
+	}
+	switch v.Kind() {
+	case reflect.Ptr, reflect.Interface:
+		return v.IsNil() || acyclic(v.Elem(), path, depth+1)
+	case reflect.Slice, reflect.Array:
+		for i := 0; i < v.Len(); i++ {
+			if !acyclic(v.Index(i), path, depth+1) {
+				return false
+			}
+		}
+	case reflect.Map:
+		for _, k := range v.MapKeys() {
+			if !acyclic(v.MapIndex(k), path, depth+1) {
+				return false
+			}
+		}
+	case reflect.Struct:
+		for i := 0; i < v.NumField(); i++ {
+			if !acyclic(v.Field(i), path, depth+1) {
+				return false
+			}
+		}
+	}
+	return true
+}
+
+func (log *Log) print(label string, v interface{}) {
+	if !acyclic(reflect.ValueOf(v), map[uintptr]bool{}, 0) {
+		log.Println(label, "(a value that contains itself or is nested too deep to print)")
+		return
+	}
+	if data, e := jsoniter.Marshal(v); e == nil {
+		log.Println(label, unsafeString(data))
+	} else {
+		log.Println(label, v)
+	}
 }
 
 func (log *Log) isEnabled(ctx context.Context) (enabled bool) {
@@ -82,18 +139,12 @@ func (log *Log) InvokeHandler(ctx context.Context, name string, args []interface
 		}
 		if err != nil {
 			log.Println("error:", err)
-		} else if data, e := jsoniter.Marshal(result); e == nil {
-			log.Println("result:", unsafeString(data))
 		} else {
-			log.Println("result:", result)
+			log.print("result:", result)
 		}
 	}()
 	log.Println("name:", name)
-	if data, e := jsoniter.Marshal(args); e == nil {
-		log.Println("args:", unsafeString(data))
-	} else {
-		log.Println("args:", args)
-	}
+	log.print("args:", args)
 	return next(ctx, name, args)
 }
 
